@@ -8,7 +8,7 @@ from ..terms import A, C, F, V, L, NIL, call, conj, TRUE, show_clause, show_prog
 
 ID = 'C15'
 LEVEL = 'model_checking'
-RULE = ('every ordered selection of <= K of the equations {X=f(Y), X=g(Y,Z), Y=h(Z), Y=Z, Z=a, Y=b, X=[Y|Z], Z=[], '
+RULE = ('every ordered selection of <= K of the equations {X=f(Y), X=g(Y,Z), Y=h(Z), Y=Z, Z=a, Y=b, X=[Y|Z], Z=[], X=p(t(c),Y), '
         'Z=k(W), W=c} (every order in which a variable and the variables inside its value can get bound), established (1) as '
         'nested unify generators through the Python API (with the engine\'s term classes and with the caller\'s own subclasses of Variable and Functor) and (2) as the body of a compiled clause, also consumed through '
         'findall/3 and through assertz + later read-back. At the innermost point the get_value() / to_python() METHODS of the term objects the caller built must reflect all bindings, and get_value of X,Y,Z must be the fully '
